@@ -207,7 +207,8 @@ def ensure(flavour, L=2048):
             hobjs.append(o)
             extra = []
             jobs.append(([CC, "-std=gnu11", "-Wall", "-Wextra", "-Wno-format-truncation", "-Wno-unused-parameter"] + shlex.split(hflags) + incs +
-                         ["-I" + HARNESS, "-DVH_REPO_SRC=\"%s\"" % os.path.join(REPO, "src"), "-DVH_L=%d" % L] + extra +
+                         ["-I" + HARNESS, "-DVH_REPO_SRC=\"%s\"" % os.path.join(REPO, "src"), "-DVH_L=%d" % L,
+                          "-DVH_MEMUTILS_C=\"%s\"" % os.path.join(REPO, "src", "cbor", "internal", "memory_utils.c")] + extra +
                          ["-c", os.path.join(HARNESS, fn), "-o", o], objdir))
         _compile_many(jobs)
         tmp = exe + ".tmp"
